@@ -238,6 +238,13 @@ class TrimeshBoundary(BoundaryDomain):
         on_bound = abs_dist <= self.domain.tol
         return on_bound.reshape(-1, 1)
 
+    def _compute_number_of_points(self, n, d, params):
+        # a density refers to the measure of the boundary, not to the volume of
+        # the domain
+        if d:
+            n = self.compute_n_from_density(d, params)
+        return n * self.len_of_params(params)
+
     def _get_volume(self, params=Points.empty(), device="cpu"):
         area = sum(self.domain.mesh.area_faces)
         return torch.tensor(area, device=device).reshape(-1, 1)
@@ -245,13 +252,13 @@ class TrimeshBoundary(BoundaryDomain):
     def sample_random_uniform(
         self, n=None, d=None, params=Points.empty(), device="cpu"
     ):
-        n = self.domain._compute_number_of_points(n, d, params)
+        n = self._compute_number_of_points(n, d, params)
         points = trimesh.sample.sample_surface(self.domain.mesh, n)[0]
         tensor_points = torch.tensor(points, device=device, dtype=torch.float32)
         return Points(tensor_points, self.space)
 
     def sample_grid(self, n=None, d=None, params=Points.empty(), device="cpu"):
-        n = self.domain._compute_number_of_points(n, d, params)
+        n = self._compute_number_of_points(n, d, params)
         points = trimesh.sample.sample_surface_even(self.domain.mesh, n)[0]
         points = torch.tensor(points, device=device, dtype=torch.float32)
         points = Sphere._append_random(self, points, n, params, device)
